@@ -292,7 +292,13 @@ func RunCtx(ctx context.Context, param *csr.ReqParam, handlers []gensign.Handler
 				ch <- res{nil, fmt.Sprint(p)}
 			}
 		}()
-		ch <- res{gensign.Run(ctx, param, handlers, signer), ""}
+		e := gensign.Run(ctx, param, handlers, signer)
+		if e != nil {
+			// what every caller does with the error: render it (a panic in doing so escapes like any other)
+			_ = e.Error()
+			_ = fmt.Sprintf("%v %+v %s", e, e, e)
+		}
+		ch <- res{e, ""}
 	}()
 	select {
 	case x := <-ch:
